@@ -30,6 +30,13 @@ Theorem C09_query_wellformed_all_kept : forall segs, forallb wf_seg segs = true 
 Proof. exact wf_segs_all_kept_lemma. Qed.
 Print Assumptions C09_query_wellformed_all_kept.
 
+(* url.ParseQuery's list IS the list of well-formed pieces, decoded, in source order: droppable
+   pieces (empty, with a semicolon, with a bad escape) remove nothing else, wherever they stand *)
+Theorem C09_query_wellformed_exactly_kept : forall q,
+  parse_query q = map decode_seg (filter wf_seg (pieces q)).
+Proof. exact parse_query_wf_pieces. Qed.
+Print Assumptions C09_query_wellformed_exactly_kept.
+
 Theorem C09_query_reencode_idempotent : forall q, reencode (reencode q) = reencode q.
 Proof. exact reencode_idem_lemma. Qed.
 Print Assumptions C09_query_reencode_idempotent.
